@@ -92,6 +92,7 @@ def run_scenario(sc: dict) -> dict:
         max_steps=int(sc.get('max_steps', 20000)),
     )
     s.starve_prob = float(sc.get('starve_prob', 0.08))
+    s.resets = bool(sc.get('resets', False))
     world = W.World(s)
     WL.now = lambda: s.steps
     obs: dict[str, Any] = {'scenario_sig': None}
